@@ -212,6 +212,8 @@ class C14(Property):
         "Flatland.C14.Proofs.find_print_denotes",
         "Flatland.C14.Proofs.eval_cancel_denotes",
         "Flatland.C14.Proofs.find_print_cancel",
+        "Flatland.C14.Proofs.denote_sorted",
+        "Flatland.C14.Proofs.find_sorted",
     ]
     generated_obligations = []
     trusted_base = [
